@@ -170,7 +170,14 @@ impl Transform {
         };
 
         // Check if the program is runnable, fail fast if it is not.
-        match Command::new(&program).spawn() {
+        // The probe must not inherit the standard streams: with `--stdin` it would compete
+        // for the list of input paths and could echo it into the report on stdout.
+        match Command::new(&program)
+            .stdin(Stdio::null())
+            .stdout(Stdio::null())
+            .stderr(Stdio::null())
+            .spawn()
+        {
             Ok(mut child) => {
                 let _ignore = child.kill();
             }
